@@ -131,7 +131,7 @@ Verdict(r) ==
       vRw == {g \in DOMAIN r.rw : gvFree(g) /\ ~(r.rw[g].wl = "ok" /\ r.rw[g].wc = "ok")}
   IN IF st.bad # 0 THEN << {<<"guard", ToString(st.bad), "">>}, {}, {} >>
      ELSE IF r.err # ""
-          THEN << {<<"build", r.err, IF TwoFileTypedefs(ev) /\ ~Encode(ev).ok THEN "emit:FILE-typedef'ed-twice" ELSE "">>}, {}, {} >>
+          THEN << {<<"build", r.err, "">>}, {}, {} >>
      ELSE << {<<"su", KeyStr(key), "">> : key \in vSu} \cup {<<"k", n, "">> : n \in vK}
              \cup {<<"en", enName(x), enClass(x)>> : x \in vEn}
              \cup {<<"td", n, "">> : n \in vTd} \cup {<<"fn", f, "">> : f \in vFn} \cup {<<"gv", g, "">> : g \in vGv}
